@@ -865,18 +865,13 @@ impl DhtCoreEngine {
             "Selected storage targets"
         );
 
-        // Store locally if we're one of the selected nodes or if no nodes are available (test/single-node mode)
-        if selected_nodes.contains(&self.node_id) || selected_nodes.is_empty() {
+        // Always keep the local copy. The engine has no remote store path of its own
+        // (replication to `selected_nodes` is driven by the network manager), and the
+        // routing table never lists the local node, so gating the local write on
+        // membership in `selected_nodes` acknowledged stores that were held nowhere.
+        {
             let mut store = self.data_store.write().await;
-            // Avoid unnecessary clone of value: key is cloned for ownership, value is consumed by this branch
             store.put(key.clone(), value);
-            // Return early since we've consumed value
-            return Ok(StoreReceipt {
-                key: key.clone(),
-                stored_at: selected_nodes,
-                timestamp: SystemTime::now(),
-                success: true,
-            });
         }
 
         Ok(StoreReceipt {
